@@ -8,6 +8,7 @@ mask_by_extent / copy_from_extent of the real classes and compares."""
 from __future__ import annotations
 
 import math
+import os
 import random
 import time
 from concurrent.futures import ThreadPoolExecutor
@@ -619,6 +620,9 @@ PREFETCH = 3  # TLC runs (1 worker each) in flight while the main thread replays
 
 def run(tier, seed):
     cfgs = CFGS[tier]
+    only = os.environ.get("C13_CFGS")  # development aid: comma separated cfg names to restrict a run
+    if only:
+        cfgs = [c for c in cfgs if c[1] in only.split(",")]
     viol, per_cfg, samples = [], {}, []
     t0 = time.time()
     with ThreadPoolExecutor(max_workers=PREFETCH + 2) as tp:
@@ -638,7 +642,7 @@ def run(tier, seed):
             samples.append(sample)
         neg_txt = [f"{cfg}: {inv} violated ({fut.result().violated})" for (_, cfg, inv), fut in zip(NEGATIVE, negs)]
     kinds = {st["kind"] for st in per_cfg.values()}
-    if kinds != KINDS:
+    if kinds != KINDS and not only:
         raise MachineryError(f"expected kinds missing: {KINDS - kinds}")
     for cfg, st in per_cfg.items():
         if st["copy_calls"] == 0 or (st["kind"] != "group" and st["mask_calls"] == 0):
